@@ -1229,7 +1229,11 @@ func (e *Env) call(x *ast.CallExpr) *Val {
 							}
 						}
 					}
-					if pureFuncs[key] {
+					libPure := false
+					if lc := fx.eng.specs.Contracts["lib:"+key]; lc != nil && lc.Pure {
+						libPure = true
+					}
+					if pureFuncs[key] || libPure {
 						if m := types.NewMethodSet(recv.Ty).Lookup(n.Obj().Pkg(), sel.Sel.Name); m != nil {
 							args := []*Val{recv}
 							for i := range x.Args {
@@ -1240,8 +1244,12 @@ func (e *Env) call(x *ast.CallExpr) *Val {
 							if res.Len() == 1 {
 								rt = res.At(0).Type()
 							}
+							sym := "pf$" + sanitize(key)
+							if libPure {
+								sym = "pc$" + sanitize(key)
+							}
 							fx.pureInline = true
-							v := fx.pureCall(e.st, "pf$"+sanitize(key), args, rt)
+							v := fx.pureCall(e.st, sym, args, rt)
 							fx.pureInline = false
 							return v
 						}
